@@ -3,6 +3,7 @@ package c20
 import (
 	"context"
 	"fmt"
+	"hash/fnv"
 	"io"
 	"net"
 	nethttp "net/http"
@@ -17,6 +18,7 @@ import (
 
 	"github.com/nuts-foundation/nuts-node/cmd"
 	"github.com/nuts-foundation/nuts-node/core"
+	"github.com/nuts-foundation/nuts-node/jsonld"
 	"github.com/nuts-foundation/nuts-node/test/pki"
 	"github.com/sirupsen/logrus"
 )
@@ -77,13 +79,50 @@ type startResult struct {
 	Out      string // stdout of the command (config sub-command)
 }
 
+// Ports: every worker process owns a block of ports below the kernel's ephemeral range, so that a port chosen
+// here cannot be taken by another worker (or by any ":0" listener) between choosing and binding. Ownership of a
+// block is the bound first port of the block (kept for the life of the process), so concurrent runs cannot share one.
+var (
+	portMu    sync.Mutex
+	portBase  int
+	portNext  int
+	portGuard net.Listener
+)
+
+const (
+	portBlock  = 360
+	portBlocks = 60 // 10000 .. 31600
+)
+
 func freeAddr() string {
-	l, err := net.Listen("tcp", "127.0.0.1:0")
-	if err != nil {
-		panic(err)
+	portMu.Lock()
+	defer portMu.Unlock()
+	if portBase == 0 {
+		h := fnv.New32a()
+		h.Write([]byte(os.Getenv("VERIF_RUNDIR")))
+		var shard, n int
+		fmt.Sscanf(os.Getenv("VERIF_SHARD"), "%d/%d", &shard, &n)
+		first := int(h.Sum32()%3)*20 + shard%20
+		for i := 0; i < portBlocks && portBase == 0; i++ {
+			base := 10000 + ((first+i)%portBlocks)*portBlock
+			if l, err := net.Listen("tcp", fmt.Sprintf("127.0.0.1:%d", base)); err == nil {
+				portGuard, portBase = l, base
+			}
+		}
+		if portBase == 0 {
+			panic("no free port block")
+		}
 	}
-	defer l.Close()
-	return l.Addr().String()
+	for i := 0; i < portBlock; i++ {
+		p := portBase + 1 + portNext%(portBlock-1)
+		portNext++
+		l, err := net.Listen("tcp", fmt.Sprintf("127.0.0.1:%d", p))
+		if err == nil {
+			l.Close()
+			return fmt.Sprintf("127.0.0.1:%d", p)
+		}
+	}
+	panic("no free port in this worker's block")
 }
 
 func clearNutsEnv() {
@@ -130,6 +169,7 @@ func runNode(t testing.TB, spec startSpec, up func(sys *core.System, internalURL
 }
 
 var execMu sync.Mutex
+var hangs int
 
 func runNodeOnce(t testing.TB, spec startSpec, up func(sys *core.System, internalURL string)) (res startResult, retry bool) {
 	execMu.Lock()
@@ -222,7 +262,7 @@ func runNodeOnce(t testing.TB, spec startSpec, up func(sys *core.System, interna
 		case e := <-done:
 			finish(e)
 			// another worker may have taken one of the ports between freeAddr() and the bind
-			if strings.Contains(res.Refusal, "address already in use") {
+			if strings.Contains(res.Refusal, "address already in use") || strings.Contains(res.Refusal, "event stream: context deadline exceeded") {
 				return res, true
 			}
 			return res, false
@@ -238,9 +278,32 @@ func runNodeOnce(t testing.TB, spec startSpec, up func(sys *core.System, interna
 			}
 		}
 		if time.Now().After(deadline) {
-			t.Fatalf("node neither started nor refused within 30 s: args=%v env=%v", spec.Args, spec.Env)
+			cancel()
+			select {
+			case <-done:
+			case <-time.After(20 * time.Second):
+			}
+			hangs++
+			if hangs > 2 {
+				t.Fatalf("node neither started nor refused within 30 s (third time): args=%v env=%v", spec.Args, spec.Env)
+			}
+			return res, true
 		}
 		time.Sleep(2 * time.Millisecond)
+	}
+	// the answer must have come from THIS system: its engines are configured before its HTTP engine serves
+	if e, ok := system.FindEngineByName("jsonld").(jsonld.JSONLD); !ok || e.DocumentLoader() == nil {
+		cancel()
+		select {
+		case <-done:
+		case <-time.After(20 * time.Second):
+		}
+		hangs++
+		if hangs > 2 {
+			t.Fatalf("/status on %s is answered by something that is not the node under test", internal)
+		}
+		res.Started = false
+		return res, true
 	}
 	if c, err := net.DialTimeout("tcp", grpcAddr, time.Second); err == nil {
 		res.GRPCOpen = true
@@ -268,12 +331,13 @@ func runNodeOnce(t testing.TB, spec startSpec, up func(sys *core.System, interna
 func (c nodeCfg) settings(t testing.TB) map[string]string {
 	cert, trust := pkiFiles(t)
 	env := map[string]string{
-		"NUTS_STRICTMODE":                   fmt.Sprint(c.Strict),
-		"NUTS_NETWORK_ENABLEDISCOVERY":      "false",
-		"NUTS_AUTH_IRMA_AUTOUPDATESCHEMAS":  "false",
-		"NUTS_DIDMETHODS":                   c.Methods,
-		"NUTS_AUTH_IRMA_SCHEMEMANAGER":      c.Irma,
-		"NUTS_TLS_TRUSTSTOREFILE":           trust,
+		"NUTS_STRICTMODE":                     fmt.Sprint(c.Strict),
+		"NUTS_NETWORK_ENABLEDISCOVERY":        "false",
+		"NUTS_NETWORK_V2_DIAGNOSTICSINTERVAL": "0", // the periodic broadcast is not part of the property
+		"NUTS_AUTH_IRMA_AUTOUPDATESCHEMAS":    "false",
+		"NUTS_DIDMETHODS":                     c.Methods,
+		"NUTS_AUTH_IRMA_SCHEMEMANAGER":        c.Irma,
+		"NUTS_TLS_TRUSTSTOREFILE":             trust,
 	}
 	if c.URL != "" {
 		env["NUTS_URL"] = c.URL
@@ -295,7 +359,7 @@ func (c nodeCfg) settings(t testing.TB) map[string]string {
 	case "vaultkv":
 		env["NUTS_CRYPTO_STORAGE"] = "vaultkv"
 		env["NUTS_CRYPTO_VAULT_ADDRESS"] = "http://127.0.0.1:1"
-		env["NUTS_CRYPTO_VAULT_TIMEOUT"] = "1s"
+		env["NUTS_CRYPTO_VAULT_TIMEOUT"] = "50ms"
 	default:
 		t.Fatalf("crypto value %q", c.Crypto)
 	}
@@ -305,6 +369,13 @@ func (c nodeCfg) settings(t testing.TB) map[string]string {
 	case "implicit":
 	default:
 		t.Fatalf("sql value %q", c.SQL)
+	}
+	switch c.Contexts {
+	case "", "default":
+	case "extra":
+		env["NUTS_JSONLD_CONTEXTS_REMOTEALLOWLIST"] = strings.Join(append(jsonld.DefaultAllowList(), listedContext), ",")
+	default:
+		t.Fatalf("contexts value %q", c.Contexts)
 	}
 	switch c.Validators {
 	case "employeeid":
@@ -319,7 +390,7 @@ func (c nodeCfg) settings(t testing.TB) map[string]string {
 
 func baseline(strict bool) nodeCfg {
 	return nodeCfg{Strict: strict, URL: "https://nuts.verif-node.nl", TLS: "configured", Crypto: "fs", SQL: "explicit",
-		Validators: "employeeid", Irma: "pbdf", Methods: "web,nuts"}
+		Validators: "employeeid", Irma: "pbdf", Methods: "web,nuts", Contexts: "default"}
 }
 
 func sortedKeys(m map[string]string) []string {
@@ -330,3 +401,5 @@ func sortedKeys(m map[string]string) []string {
 	sort.Strings(ks)
 	return ks
 }
+
+func sortStrings(s []string) { sort.Strings(s) }
